@@ -58,7 +58,7 @@ cd /verif
 res=""
 for c in $checks; do
   echo "=== ./check.py $c quick against the change" >>$log
-  VERIF_OVERLAY=/tmp/seedv-ov.$$/overlay.json VERIF_SHRINKTIME=${VERIF_SHRINKTIME:-5s} ./check.py $c quick >>$log 2>&1; rc=$?
+  VERIF_WORKROOT=/tmp/seedv-ov.$$/work VERIF_OVERLAY=/tmp/seedv-ov.$$/overlay.json VERIF_SHRINKTIME=${VERIF_SHRINKTIME:-5s} ./check.py $c quick >>$log 2>&1; rc=$?
   sig=$(grep -o '^  \[[^]]*\]' $log | tail -1 | tr -d ' ')
   res="$res $c=exit$rc$sig"
 done
